@@ -156,6 +156,15 @@ def main(argv=None):
     from mc import spec
     spec.selfcheck_light()
 
+    # replay files of earlier runs of this property are stale
+    import glob
+    for old_replay in glob.glob(os.path.join(ROOT, 'replays',
+                                             '%s-*.json' % pid)):
+        try:
+            os.remove(old_replay)
+        except OSError:
+            pass
+
     plan = prop.plan(args.tier)
     units = list(plan['units'])
     if args.max_units:
